@@ -16,7 +16,8 @@ CASE_TIMEOUT = 1200
 RULE = ("kind eos: 3 EOS x random parameter sets (B0 5..400 GPa, B0' 2..8, V0 10..500 A^3): E(V0)=E0, E'(V0)=0, V0 E''(V0)=B0, -(V/B) dB/dV=B0'; "
         "kind qha: 3 EOS x parameter sets x volume grids (5..15 points, +-3..10 %) x pressures {0, +-5, 30 GPa} x electronic energies of shape (V) or (T,V) x t_max choices x temperature grids (equal steps | ascending unequal steps): "
         "V0(T), Gibbs energy, B0(T), thermal expansion and numerical C_P vs the documented finite differences of the known functions; BulkModulus class; "
-        "non-trivial = parameters move with temperature (qha) / all four identities evaluated (eos); distinct = parameter tuple")
+        "non-trivial = parameters move with temperature (qha) / all four identities evaluated (eos); distinct = parameter tuple; "
+        "additions of rounds 6-8: data generated with the harness' own textbook EOS, get_eos compared with them; volume points descending / shuffled; constant energy offsets (precision loss = known finding inside a measured envelope); every temperature must get its own fit; thermal-expansion tolerance from the temperature step")
 ASSUMPTIONS = ["scipy (leastsq) comes from the offline wheelhouse into /verif/.deps", "fit tolerance 1e-7 relative (exact-EOS data, so the least-squares minimum is the generating parameter set)"]
 MIN_NONTRIVIAL = {"quick": 60, "thorough": 500}
 EOSS = ["vinet", "birch_murnaghan", "murnaghan"]
